@@ -528,6 +528,12 @@ def render_ini(f):
     if f.get("noise"):
         lines += ["# generated by the C20 check", "[tox]", "envlist = py39, py312", "skip_missing_interpreters = true",
                   "", "[metadata]", "name = sample", ""]
+        if f["noise"] == 2:
+            # a LONG shared file (tox.ini / setup.cfg of a big project): the behave section starts after some
+            # hundred lines / several kilobytes of other tools' sections
+            for i in range(70):
+                lines += ["[testenv:py3%d-variant%d]" % (i % 13, i), "description = run the unit tests, variant %d" % i,
+                          "deps = pytest>=7.%d" % i, "commands = pytest {posargs} tests/unit/part%d" % i, ""]
     if f["opts"] or not f.get("noise"):
         lines.append("[behave]")
     for o in f["opts"]:
@@ -567,6 +573,10 @@ def render_toml(f):
     if f.get("noise"):
         lines += ["# generated by the C20 check", "[project]", 'name = "sample"', 'version = "1.0"', "",
                   "[tool.other]", "jobs = 99", 'format = ["nonsense"]', ""]
+        if f["noise"] == 2:
+            for i in range(70):
+                lines += ["[tool.other.env%d]" % i, 'description = "run the unit tests, variant %d"' % i,
+                          'deps = ["pytest>=7.%d"]' % i, 'commands = "pytest tests/unit/part%d"' % i, ""]
     if f["opts"] or f["ud"] or not f.get("noise"):
         lines.append("[tool.behave]")
     for o in f["opts"]:
@@ -1134,6 +1144,8 @@ def _labels(res, case, exp, fv, cv):
     res.label("layout:" + case["layout"], "files:%d" % len(case["files"]))
     for f in case["files"]:
         res.label("file:" + f["name"], "where:" + f["where"])
+        if f.get("noise") == 2 and (f["opts"] or f["ud"]):
+            res.label("file:behave-section-after-kilobytes-of-other-sections")
         if f["ud"]:
             res.label("file-userdata")
         if any(o.get("lead") for o in f["opts"]):
@@ -1282,7 +1294,7 @@ def case_st(draw, toml_ok=True, focus="options"):
         if key in used:
             continue
         used.add(key)
-        files.append({"where": where, "name": name, "opts": [], "ud": [], "noise": draw(st.booleans()),
+        files.append({"where": where, "name": name, "opts": [], "ud": [], "noise": draw(st.sampled_from([False, False, False, True, True, 2])),
                       "st": draw(st.integers(0, 7))})
     max_opts = 8 if focus == "options" else 2
     fdests = draw(st.lists(st.sampled_from(FILE_DESTS), max_size=max_opts, unique=True)) if files else []
@@ -1481,7 +1493,7 @@ def explore(rec):
 
 
 def required_labels(tier):
-    labels = ["both-different", "layout:sep", "layout:nested", "layout:same", "files:0", "files:1", "files:2",
+    labels = ["file:behave-section-after-kilobytes-of-other-sections", "both-different", "layout:sep", "layout:nested", "layout:same", "files:0", "files:1", "files:2",
               "file:behave.ini", "file:.behaverc", "file:setup.cfg", "file:tox.ini", "where:cwd", "where:home",
               "bool-both", "append-both", "home-relative-path", "outfile-filled", "tags-replace", "placeholder",
               "paths-replace", "coupling:wip", "coupling:quiet", "coupling:junit", "coupling:steps_catalog",
